@@ -165,3 +165,16 @@ macro_rules! with_kmer_type {
         }
     };
 }
+
+/// An iterator seen through its adaptors: `count:nth(n-1):skip(n/2):step_by(3):last:nth(n):size_hint-consistent`, where `n` is
+/// the number of items `collect` delivers.  `show` renders one item.
+pub fn adaptors<T, I: Iterator<Item = T>, F: Fn() -> I, S: Fn(&T) -> String>(mk: F, show: S) -> String {
+    let all: Vec<T> = mk().collect();
+    let n = all.len();
+    let o = |x: Option<T>| x.map(|v| show(&v)).unwrap_or("-".into());
+    let l = |v: Vec<T>| if v.is_empty() { "-".to_string() } else { v.iter().map(|x| show(x)).collect::<Vec<_>>().join(".") };
+    let (lo, hi) = mk().size_hint();
+    let hint_ok = lo <= n && hi.map(|h| n <= h).unwrap_or(true);
+    format!("{}:{}:{}:{}:{}:{}:{}", mk().count(), o(if n > 0 { mk().nth(n - 1) } else { mk().nth(0) }), l(mk().skip(n / 2).collect()),
+        l(mk().step_by(3).collect()), o(mk().last()), o(mk().nth(n)), hint_ok as u8)
+}
